@@ -244,7 +244,7 @@ public:
                 break;
             case 5:
                 // forge: target agent, component, target socket, kind, source, flags
-                p.ops.append(mkop(QStringLiteral("forge"), { (qint64)r.uniform(2), (qint64)r.uniform(2), (qint64)r.uniform(2), (qint64)r.uniform(10), (qint64)r.uniform(3), (qint64)r.uniform(256) }, {}, salt));
+                p.ops.append(mkop(QStringLiteral("forge"), { (qint64)r.uniform(2), (qint64)r.uniform(2), (qint64)r.uniform(2), (qint64)r.uniform(12), (qint64)r.uniform(3), (qint64)r.uniform(256) }, {}, salt));
                 break;
             }
         }
@@ -553,6 +553,14 @@ public:
                 });
                 for (int c = 1; c <= comps; ++c) {
                     QObject::connect(g.conn->component(c), &QXmppIceComponent::datagramReceived, &ctx, [&, a, c](const QByteArray &d) {
+                        if (d.isEmpty()) {
+                            // payload that is not STUN is media for ICE and goes to the application whoever sent it: an empty
+                            // datagram from a stranger shows up here and is no reaction of the agent (not part of the compared history)
+                            if (tr) {
+                                tr->log(QStringLiteral("%1 component %2 received an empty application datagram").arg(ag[a].name).arg(c));
+                            }
+                            return;
+                        }
                         ag[a].appReceived[c].append(d);
                         note(QStringLiteral("%1 component %2 received application datagram %3").arg(ag[a].name).arg(c).arg(QString::fromLatin1(d.toHex())));
                     });
@@ -1022,6 +1030,13 @@ public:
                         f.sport = req->sport;
                         integrity = 5;
                         what = QStringLiteral("honest request altered in flight (stale integrity)");
+                    }
+                    if (kind == 10 || kind == 11) {
+                        // not STUN at all: a zero-length datagram - legal UDP that anybody can send (payload that is not STUN is media
+                        // for ICE and handed to the application whoever sent it, so a non-empty runt would legitimately show)
+                        f.data = QByteArray();
+                        integrity = 0;
+                        what = QStringLiteral("zero length datagram");
                     }
                     static const char *integ[] = { "no integrity", "integrity under a made-up key", "truncated integrity", "zero integrity", "integrity keyed with the username", "stale integrity", "fingerprint followed by bogus integrity", "twenty arbitrary bytes as integrity" };
                     const QString line = QStringLiteral("forge: %1 with %2%3 from %4:%5 to %6 component %7").arg(what, QLatin1String(integ[integrity]), useCandidate && kind < 4 ? QStringLiteral(" and USE-CANDIDATE") : QString(), f.src.toString()).arg(f.sport).arg(target.name).arg(comp);
